@@ -30,14 +30,14 @@ ASSUMPTIONS = [
 ]
 COMPONENTS = {"real": ["pyxel outputs (create_output_directory, save_to_files, save_to_file, apply_run_number)", "run_mode for the three modes and the file entry point pyxel.run (filename table, output_filenames.csv)", "dask get_async", "numpy.save / astropy fits.writeto / PIL on a real scratch filesystem"], "stub": ["wall clock (SimDateTime)", "thread pool", "OSError injection wrappers"]}
 BUDGET = {"quick": {"n": 400, "wall": 110, "determinism": 4}, "thorough": {"n": 10000, "wall": 1600, "determinism": 12}}
-REQUIRED_REACH = ["via:file", "kind:exposure", "kind:obs-seq", "kind:obs-par", "same_second_starts", "clock_backwards", "prepopulated_dir", "concurrent_starts", "mkdir_lost_race", "fault:mkdir", "fault:write", "multi_key_mapping", "fmt:fits", "fmt:npy", "fmt:jpg"]
+REQUIRED_REACH = ["bucket_in_several_entries", "via:file", "kind:exposure", "kind:obs-seq", "kind:obs-par", "same_second_starts", "clock_backwards", "prepopulated_dir", "concurrent_starts", "mkdir_lost_race", "fault:mkdir", "fault:write", "multi_key_mapping", "fmt:fits", "fmt:npy", "fmt:jpg"]
 
 BUCKETS = ("photon", "pixel", "signal", "image")
 
 
 def gen_save(rng):
     save = []
-    for _ in range(rng.randint(1, 2)):
+    for _ in range(rng.randint(1, 3)):
         d = {}
         for b in rng.sample(BUCKETS, rng.randint(1, 2)):
             fm = rng.sample(["npy", "fits"], rng.randint(1, 2))
@@ -45,11 +45,16 @@ def gen_save(rng):
                 fm.append("jpg")
             d[f"detector.{b}.array"] = fm
         save.append(d)
-    # a bucket may appear once only (otherwise two requests map to one file name)
+    # one (bucket, format) request may appear once only (two requests would map to one file name);
+    # the same bucket may well be requested in several entries with other formats
     seen, out = set(), []
     for d in save:
-        d2 = {k: v for k, v in d.items() if k not in seen}
-        seen.update(d2)
+        d2 = {}
+        for k, fm in d.items():
+            keep = [f for f in fm if (k, f) not in seen]
+            seen.update((k, f) for f in keep)
+            if keep:
+                d2[k] = keep
         if d2:
             out.append(d2)
     return out
@@ -330,6 +335,9 @@ def execute(scn, forced=None):
                 last_start_second = sec
                 if any(len(d) > 1 for d in op["save"]):
                     stats["multi_key_mapping"] = 1
+                bl = [k2 for d in op["save"] for k2 in d]
+                if len(bl) != len(set(bl)):
+                    stats["bucket_in_several_entries"] = 1
                 for _, f in expected_requests(op):
                     stats["fmt:" + f] = 1
                 if op["op"] == "start":
